@@ -118,6 +118,46 @@ Theorem C16_total_concrete_backend :
 Proof. exact rpcHandler_total_concrete. Qed.
 Print Assumptions C16_total_concrete_backend.
 
+(* 5b. Never null, over the same concrete model, where "bad parameters" and "malformed from" have their real
+       meaning (WfProofsC09.must_fail_c: decode_transaction fails; `from` is not 20 hex-encoded bytes) and
+       the reply is the JSON tree actually serialised: a body the lexer rejects, or whose tree is neither a
+       request nor a non-empty batch, gets the parse-error object; a single request that cannot be processed
+       gets an error object ({"jsonrpc":"2.0","id":..,"error":{"code":..,"message":..}}); a batch gets an
+       array with one slot per member in which every member that cannot be processed (null member, missing
+       id, ...) holds an error object -- for every backend and every completion order. *)
+Theorem C16_never_null_concrete :
+  forall (parse_int : bytes -> option Z) (lex : bytes -> option Json.json) (accounts : list bytes)
+         (sign_with : bytes -> Json.transaction -> Z -> res bytes)
+         (backend : Model.frame -> Model.backend_reply) (chain : Z),
+    (forall a t c, sign_with a t c <> Panic) ->
+    let handler := Model.rpcHandler parse_int lex accounts sign_with backend chain in
+    let must_fail := must_fail_c parse_int in
+    (forall body order, lex body = None -> handler body order = Ok Model.replyRPCParseError) /\
+    (forall body order t e, lex body = Some t -> Json.decode_request t = Err e ->
+        (Json.decode_batch t = Ok [] \/ exists e', Json.decode_batch t = Err e') ->
+        handler body order = Ok Model.replyRPCParseError) /\
+    (forall body order t rq, (b2n (Model.sniffFirstByte body) =? 91)%N = false ->
+        lex body = Some t -> Json.decode_request t = Ok rq -> must_fail (Some rq) = true ->
+        exists status tree traces, handler body order = Ok (status, tree, traces) /\ error_reply_tree tree) /\
+    (forall body order t members, (b2n (Model.sniffFirstByte body) =? 91)%N = true ->
+        lex body = Some t -> Json.decode_batch t = Ok members -> members <> [] ->
+        Permutation order (seq 0 (length members)) ->
+        exists status slots traces, handler body order = Ok (status, Json.JArr slots, traces) /\
+          length slots = length members /\
+          forall i m, nth_error members i = Some m -> must_fail m = true ->
+                      exists s, nth_error slots i = Some s /\ error_reply_tree s).
+Proof. exact never_null_concrete. Qed.
+Print Assumptions C16_never_null_concrete.
+
+(* 6. The sniffing clause on its own (repair e339dcc): behind any number of bytes that unicode.IsSpace
+      accepts -- hence behind any amount of JSON whitespace -- the opening bracket of a batch is found. *)
+Theorem C16_sniff_any_whitespace :
+  forall (ws rest : bytes),
+    Forall (fun c => is_space_go c = true) ws ->
+    sniff_first_byte (ws ++ open_bracket :: rest) = open_bracket.
+Proof. exact sniff_any_whitespace. Qed.
+Print Assumptions C16_sniff_any_whitespace.
+
 (* ---- non-vacuity ---- *)
 Definition ex_sync (w : unit) (q : request) : (option response * bool) * unit :=
   ((Some (mkResp v2_0 (q_id q) (Some (JStr (ascii_bytes "0xabc"))) None), false), tt).
@@ -182,3 +222,18 @@ Example C16_total_concrete_nonvacuous :
                      (fun _ => Model.BHttp 200 (Model.BJson Json.JNull)) 1%Z (ascii_bytes "[x]") [0%nat]
     = Ok (500%N, r, fr).
 Proof. eexists _, _. vm_compute. reflexivity. Qed.
+
+(* sniffing: 100 000 blanks, tabs and newlines in front of the bracket *)
+Example C16_sniff_nonvacuous :
+  sniff_first_byte (repeat x20 (N.to_nat 100000) ++ [x09; x0a; x0d] ++ open_bracket :: ascii_bytes "null]") = open_bracket.
+Proof. vm_compute. reflexivity. Qed.
+
+(* concrete never-null: `from` "zz" with no nonce is a request that must fail in the concrete sense *)
+Example C16_never_null_concrete_nonvacuous :
+  must_fail_c (fun _ => None)
+    (Some (Json.mkReq [] (Some (Json.JNum (ascii_bytes "7"))) (ascii_bytes "eth_sendTransaction")
+                      [Json.JObj [(ascii_bytes "from", Json.JStr (ascii_bytes "zz"))]])) = true /\
+  must_fail_c (fun _ => None)
+    (Some (Json.mkReq [] (Some (Json.JNum (ascii_bytes "7"))) (ascii_bytes "eth_sendTransaction")
+                      [Json.JObj [(ascii_bytes "from", Json.JStr (ascii_bytes "0x00000000000000000000000000000000000000aa"))]])) = false.
+Proof. split; vm_compute; reflexivity. Qed.
